@@ -57,6 +57,12 @@ type FAR struct {
 	EndMarker bool   `json:"sndem,omitempty"` // PFCPSMReq-Flags SNDEM inside Update Forwarding Parameters
 	HasSMReq  bool   `json:"smreq,omitempty"` // PFCPSMReq-Flags IE present (flag may be clear)
 	Perm      uint32 `json:"perm,omitempty"`  // see PDR.Perm
+	// SMExtra: further bits of the PFCPSMReq-Flags octet (DROBU 0x01, QAURR 0x04) sent along with or without
+	// SNDEM; they mean nothing for end markers
+	SMExtra uint8 `json:"smextra,omitempty"`
+	// OmitDstIf (Update FAR only): the Destination Interface IE is left out of Update Forwarding Parameters -
+	// TS 29.244 sends it "if changed" - so the rule keeps the destination interface it had
+	OmitDstIf bool `json:"omitdstif,omitempty"`
 }
 
 // QER is an abstract QoS enforcement rule (rates in kbps as on the wire).
@@ -97,14 +103,14 @@ type Op struct {
 	QERs   []QER  `json:"qers,omitempty"`
 
 	// mod
-	UpdPDRs  []PDR    `json:"updpdrs,omitempty"`
-	UpdFARs  []FAR    `json:"updfars,omitempty"`
-	UpdQERs  []QER    `json:"updqers,omitempty"`
-	RemPDRs  []uint16 `json:"rempdrs,omitempty"`
-	RemFARs  []uint32 `json:"remfars,omitempty"`
-	RemQERs  []uint32 `json:"remqers,omitempty"`
-	NewCP    bool     `json:"newcp,omitempty"`   // mod carries a CP F-SEID
-	NewCPSEID uint64  `json:"newcpseid,omitempty"`
+	UpdPDRs   []PDR    `json:"updpdrs,omitempty"`
+	UpdFARs   []FAR    `json:"updfars,omitempty"`
+	UpdQERs   []QER    `json:"updqers,omitempty"`
+	RemPDRs   []uint16 `json:"rempdrs,omitempty"`
+	RemFARs   []uint32 `json:"remfars,omitempty"`
+	RemQERs   []uint32 `json:"remqers,omitempty"`
+	NewCP     bool     `json:"newcp,omitempty"` // mod carries a CP F-SEID
+	NewCPSEID uint64   `json:"newcpseid,omitempty"`
 
 	// addressing of mod/del: "" = the session's UP SEID, "unknown" = a SEID nobody has,
 	// "foreign" = sent by peer Peer but addressed with the UP SEID of session Sess (another peer's)
@@ -112,13 +118,13 @@ type Op struct {
 
 	PFDs []PFD `json:"pfds,omitempty"`
 
-	Raw   string `json:"raw,omitempty"` // hex datagram
+	Raw string `json:"raw,omitempty"` // hex datagram
 	// PatchSEID: at run time the header SEID of Raw is replaced by the UP SEID learnt for session Sess
-	PatchSEID bool `json:"patchseid,omitempty"`
-	Ms    int    `json:"ms,omitempty"`
-	N     int    `json:"n,omitempty"`
-	Note  string `json:"note,omitempty"`
-	Extra map[string]any `json:"x,omitempty"`
+	PatchSEID bool           `json:"patchseid,omitempty"`
+	Ms        int            `json:"ms,omitempty"`
+	N         int            `json:"n,omitempty"`
+	Note      string         `json:"note,omitempty"`
+	Extra     map[string]any `json:"x,omitempty"`
 }
 
 // Case is a whole generated test case.
